@@ -446,15 +446,18 @@ func (e *SpecEnv) sel(v Val, name string) Val {
 		if !ok {
 			bail("spec: .%s on pointer to %s", name, t.T)
 		}
-		idx := fieldIndex(st, name)
+		path, FT := fieldPath(st, name)
+		if path == nil {
+			bail("spec: no field %s", name)
+		}
 		np := *t
-		np.Path = append(append([]int(nil), t.Path...), idx)
-		np.T = st.Field(idx).Type()
+		np.Path = append(append([]int(nil), t.Path...), path...)
+		np.T = FT
 		return x.load(e.st, nil, &np, nil)
 	case Term:
 		T := t.T
 		if T == nil {
-			bail("spec: .%s on untyped term", name)
+			return Term{x.declare(e.st, "undef", "Int"), nil} // field of an undefined value
 		}
 		if pt, ok := T.Underlying().(*types.Pointer); ok {
 			return e.sel(&Place{Kind: pkHeap, Ref: t.S, Base: pt.Elem(), T: pt.Elem()}, name)
@@ -463,12 +466,36 @@ func (e *SpecEnv) sel(v Val, name string) Val {
 		if !ok {
 			bail("spec: .%s on %s", name, T)
 		}
-		idx := fieldIndex(st, name)
-		s, FT := x.project(t.S, T, []int{idx})
+		path, _ := fieldPath(st, name)
+		if path == nil {
+			bail("spec: no field %s", name)
+		}
+		s, FT := x.project(t.S, T, path)
 		return Term{s, FT}
 	}
 	bail("spec: .%s on %T", name, v)
 	return nil
+}
+
+// fieldPath finds a field by name, looking through embedded (value) structs for promoted fields.
+func fieldPath(st *types.Struct, name string) ([]int, types.Type) {
+	for i := 0; i < st.NumFields(); i++ {
+		if st.Field(i).Name() == name {
+			return []int{i}, st.Field(i).Type()
+		}
+	}
+	for i := 0; i < st.NumFields(); i++ {
+		f := st.Field(i)
+		if !f.Embedded() {
+			continue
+		}
+		if sub, ok := f.Type().Underlying().(*types.Struct); ok {
+			if p, T := fieldPath(sub, name); p != nil {
+				return append([]int{i}, p...), T
+			}
+		}
+	}
+	return nil, nil
 }
 
 func fieldIndex(st *types.Struct, name string) int {
@@ -486,7 +513,7 @@ func (e *SpecEnv) index(xv, iv Val) Val {
 	t := e.term(xv)
 	i := e.term(iv)
 	if t.T == nil {
-		bail("spec: index of untyped term")
+		return Term{x.declare(e.st, "undef", "Int"), nil}
 	}
 	switch u := t.T.Underlying().(type) {
 	case *types.Slice:
@@ -605,6 +632,9 @@ func (e *SpecEnv) call(n *CallE) Val {
 	case "len":
 		v := e.eval(n.Args[0])
 		t := e.term(v)
+		if t.T == nil { // value of an undefined expression (e.g. res() of a call that did not happen)
+			return Term{x.declare(e.st, "undef", "Int"), intT}
+		}
 		switch t.T.Underlying().(type) {
 		case *types.Slice:
 			return Term{app("s_len", t.S), intT}
